@@ -10,6 +10,8 @@ properties use; the rules of the core calculus are the specification's lexically
 semantics (`docs/spec.md`) as *derived* rules of that judgment.
 -/
 import UH.Proofs.NatSem
+import UH.Proofs.EvalF
+import UH.Model.Main
 namespace UH.NatSemP
 open UH BigStep Unforced C19
 
@@ -154,5 +156,72 @@ example (s : Store) (w : World) (n : Int) (sp : Span) (env : Env) (M : MState) (
     ∃ k, (runN k M).resp = some (.ok (.int n)) ∧ (runN k M).tail = rest := by
   obtain ⟨k, _, _, _, h4, h5⟩ := (bigstep_sound_frame (frame_of_literal s w 0 n sp env) M rest hrun hresp htail hs hw hh).fields
   exact ⟨k, h5, h4⟩
+
+/-! ### the executable big-step evaluator, and closed instances
+
+`evalF` (UH/Model/EvalF.lean) is `Eval` as a function with fuel; the driver runs it on every ordinary case of the
+correspondence (command `main2`).  The instances below are *tests*, checked by kernel evaluation — they show that
+closed derivations exist for real programs (a closure call with an argument reference; a recursive tail loop), and
+that the loop's height does not depend on its iteration count in these instances; the general statement is
+`tail_loops_constant_stack`. -/
+
+/-- whatever `evalF` returns is derivable -/
+theorem evalF_derivable (fuel : Nat) (s : Store) (w : World) (task : Task) (br : BigResult)
+    (h : evalF fuel s w task = .ok br) : Eval s w task br.height br.res br.store br.world :=
+  evalF_sound fuel s w task br h
+
+/-- … and is what the machine computes -/
+theorem evalF_is_machine (fuel : Nat) (s : Store) (w : World) (c : Comp Res) (br : BigResult)
+    (h : evalF fuel s w (.comp c) = .ok br) (hh : br.height < maxStackSize) :
+    ∃ n, (runN n (initState s w c)).status = .done br.res ∧ (runN n (initState s w c)).store = br.store ∧
+      (runN n (initState s w c)).world = br.world :=
+  evalF_machine fuel s w c br h hh
+
+def w0 : World := { stdin := [], stdout := [], files := [], dirs := [], handles := #[], registry := [] }
+def sp0 : Span := ⟨0, 0, 0⟩
+
+/-- the head coroutine "evaluate this program expression to weak-head form" -/
+def forceProg (e : AST) : Store × Comp Res :=
+  let (t, st) := allocCell initStore e
+  (st, do let v ← Comp.forceArg (.thunk t none); pure (Res.arg (.strict v)))
+
+/-- integer result and height of a program, by the big-step evaluator -/
+def valueOf (fuel : Nat) (e : AST) : Option (Int × Nat) :=
+  match evalF fuel (forceProg e).1 w0 (.comp (forceProg e).2) with
+  | .ok ⟨.ok (.arg (.strict (.int n))), _, _, h⟩ => some (n, h)
+  | _ => none
+
+theorem valueOf_machine (fuel : Nat) (e : AST) (n : Int) (h : Nat) (hv : valueOf fuel e = some (n, h))
+    (hh : h < maxStackSize) :
+    ∃ k, (runN k (initState (forceProg e).1 w0 (forceProg e).2)).status = .done (.ok (.arg (.strict (.int n)))) := by
+  unfold valueOf at hv
+  split at hv
+  · rename_i n' s' w' h' heq
+    simp only [Option.some.injEq, Prod.mk.injEq] at hv
+    obtain ⟨rfl, rfl⟩ := hv
+    obtain ⟨k, hk, _, _⟩ := evalF_machine fuel _ w0 _ _ heq hh
+    exact ⟨k, hk⟩
+  · cases hv
+
+/-- `(λx. x) 5` -/
+def progId : AST := .call (.funDef (.argRef (.lit 0 sp0) 0 sp0) sp0) [.lit 5 sp0] sp0
+
+/-- `f(n) = (n = 0)(0, f(n + (−1)))` applied to `n`: a loop by tail calls, selected by a Boolean -/
+def countdown (n : Int) : AST :=
+  .call (.funDef (.call (.call (.lit 1 sp0) [.argRef (.lit 0 sp0) 0 sp0, .lit 0 sp0] sp0)
+      [.lit 0 sp0, .call (.funRef 0 sp0) [.call (.lit 2 sp0) [.argRef (.lit 0 sp0) 0 sp0, .lit (-1) sp0] sp0] sp0] sp0) sp0)
+    [.lit n sp0] sp0
+
+theorem instance_id : valueOf 100 progId = some (5, 2) := by decide +kernel
+theorem instance_countdown_2 : valueOf 300 (countdown 2) = some (0, 5) := by decide +kernel
+theorem instance_countdown_12 : valueOf 3000 (countdown 12) = some (0, 5) := by decide +kernel
+
+/-- the machine evaluates `(λx. x) 5` to 5 (through the big-step derivation) -/
+theorem machine_id : ∃ k, (runN k (initState (forceProg progId).1 w0 (forceProg progId).2)).status
+    = .done (.ok (.arg (.strict (.int 5)))) := valueOf_machine 100 progId 5 2 instance_id (by decide)
+
+/-- … and the twelve-iteration loop to 0, within five frames -/
+theorem machine_countdown_12 : ∃ k, (runN k (initState (forceProg (countdown 12)).1 w0 (forceProg (countdown 12)).2)).status
+    = .done (.ok (.arg (.strict (.int 0)))) := valueOf_machine 3000 (countdown 12) 0 5 instance_countdown_12 (by decide)
 
 end UH.NatSemP
